@@ -33,7 +33,7 @@ import (
 // C07 (LCM parameters of the assembled servers).
 //
 //	SETUP transport=tcp|mux acl=none|present methods=a,b|- namespaces=x,y|- nsmap=l1:r1,l2:r2|- samap=lk:rk,...|- mode=default|lcm local=4 remote=6
-//	CALL side=remote|local method=/full/Method [bypass=0|1] [ns=name]
+//	CALL side=remote|local method=/full/Method [bypass=0|1] [hdrs=name:value;...] [ns=name]
 //	METHODS                          list every method of both services (from the descriptors)
 //	  -> CALL code=<n> reached=0|1 seen=<side>:<namespace field value or -> resp=<namespace field of response or ->
 const (
@@ -383,6 +383,14 @@ func TestVerifE2E(t *testing.T) {
 			ctx, cancel := context.WithTimeout(context.Background(), 5*time.Second)
 			if v, ok := kv["bypass"]; ok && v == "1" {
 				ctx = metadata.AppendToOutgoingContext(ctx, "s2s-request-translation", "false")
+			}
+			if v, ok := kv["hdrs"]; ok && v != "-" {
+				// further caller-supplied metadata: name:value;name:value
+				for _, h := range strings.Split(v, ";") {
+					if nv := strings.SplitN(h, ":", 2); len(nv) == 2 {
+						ctx = metadata.AppendToOutgoingContext(ctx, nv[0], nv[1])
+					}
+				}
 			}
 			_ = env.local.take()
 			_ = env.remote.take()
